@@ -49,9 +49,8 @@ ASSUMPTIONS = [
     "signal delivery is modelled as: wake-up byte written and Python-level handler run at the same instant, at an agenda time",
     "select reports ready descriptors in the order of its input list and is otherwise fair; the clock only advances inside "
     "select or between requests (the main thread's own statements take no time); clock readings are integer ticks",
-    "event objects are truthy by default (a user-defined event class that is falsy - __len__ 0 / __bool__ False - is not "
-    "exercised: `if event: return event` in _send would drop it on the code as it is; the library's own event classes, incl. an "
-    "empty PasteEvent used as a trigger's event type, are); encoding pinned to utf-8; keys named with Keynames.BYTES so that every returned key shows "
+    "trigger event types include the library's own empty PasteEvent and user-defined FALSY events (__len__ 0, __bool__ False): a "
+    "triggered event is delivered exactly once whatever its truth value (D45, fixed); encoding pinned to utf-8; keys named with Keynames.BYTES so that every returned key shows "
     "the bytes it consumed (naming itself is C03/C20)",
     "key segmentation (events.get_key) is a parameter of the Lean theorems; its own correctness is C03",
     "a scheduled event is deliverable iff when < time.time() (the code's test; 'never before its time' allows delivery from "
@@ -116,6 +115,18 @@ class TPaste(cevents.PasteEvent):
         return "<TPaste %s%d>" % (self.kind, self.id)
 
 
+class EvLen0(Ev):
+    """a user-defined event that is FALSY (a container-like event with nothing in it)"""
+
+    def __len__(self):
+        return 0
+
+
+class EvFalse(Ev):
+    def __bool__(self):
+        return False
+
+
 EVS = (Ev, TPaste)
 
 
@@ -126,7 +137,7 @@ def is_paste(r):
 
 def mk_ev(id, kind):
     """event types of the triggers alternate between a plain Event subclass and the library's PasteEvent"""
-    return TPaste(id, kind) if id % 3 == 0 else Ev(id, kind)
+    return [TPaste, Ev, EvLen0, Ev, EvFalse, Ev][id % 6](id, kind)
 
 
 class SEv(cevents.ScheduledEvent):
